@@ -142,4 +142,12 @@ example : Impl.run env0 20
 example : Spec.eval true env0 20 (.seq [.PUSH (.set .int) (.set .int [.num .int 3, .num .int 1]), .PUSH .int (.num .int 1), .MEM]) [] = .err := by rfl
 example : Typing.literalsOk (.PUSH (.set .int) (.set .int [.num .int 3, .num .int 1])) = false := by rfl
 
+-- hashing: for EVERY choice of the five hash functions the machine pushes the function's value (here an arbitrary `h`)
+example (h : Hashes) (b : List Nat) :
+    Impl.run { env0 with hashes := h } 20 (.seq [.PUSH .bytes (.bytes b), .SHA256, .BLAKE2B, .KECCAK]) []
+      = .ok [.bytes (h.keccak (h.blake2b (h.sha256 b)))] :=
+  run_ok _ 20 _ [] _ (by simp [Spec.eval, Spec.evalSeq, Spec.step, Spec.stepMore, Res.bind])
+example : Spec.eval true { env0 with totalVotingPower := 7, minBlockTime := 15 } 20
+    (.seq [.TOTAL_VOTING_POWER, .CAST .nat, .RENAME, .MIN_BLOCK_TIME]) [] = .ok [.num .nat 15, .num .nat 7] := by rfl
+
 end C01
